@@ -1,6 +1,7 @@
 package main
 
 import (
+	"github.com/nspcc-dev/neo-go/pkg/crypto/keys"
 	"bytes"
 	"fmt"
 	"math/big"
@@ -294,6 +295,34 @@ func famScript(c *ctx) {
 	input := genKeyList(c, n, true)
 	script := buildSorted(c, m, input)
 	cmpLines(c, input, 3)
+	if n <= 130 {
+		// the BFT / majority builders: m = n-(n-1)/3 and n-(n-1)/2
+		for _, b := range []struct {
+			op string
+			f  func(keys.PublicKeys) ([]byte, error)
+			m  int
+		}{{"msdefault", smartcontract.CreateDefaultMultiSigRedeemScript, n - (n-1)/3}, {"msmajority", smartcontract.CreateMajorityMultiSigRedeemScript, n - (n-1)/2}} {
+			var sc []byte
+			obs := hx.Safe(func() string {
+				s, err := b.f(input.Copy())
+				if err != nil {
+					return "err"
+				}
+				sc = s
+				return hx.Hex(s)
+			})
+			c.line(b.op+" "+keyFields(input), obs)
+			if sc == nil {
+				c.fail("script-default-build", "%s on %d keys failed", b.op, n)
+				continue
+			}
+			if !hasInf(input) {
+				if pm, pks, ok := scparser.ParseMultiSigContract(sc); !ok || pm != b.m || len(pks) != n {
+					c.fail("script-default-build", "%s on %d keys parses as m=%d, %d keys, ok=%v (want m=%d)", b.op, n, pm, len(pks), ok, b.m)
+				}
+			}
+		}
+	}
 	if script != nil && !hasInf(input) && r.Chance(1, 3) {
 		// the old form of the op: the keys in the emitted order
 		pubs := input.Copy()
